@@ -37,7 +37,7 @@ pub fn encode_all(src: &str) -> Option<String> {
 
 pub fn run_tx3c(src: &str) -> Result<Vec<u8>, String> {
     let n = SERIAL.fetch_add(1, Ordering::SeqCst);
-    let dir = format!("{}/.work", crate::runner::VERIF_DIR);
+    let dir = format!("{}/.work", crate::runner::verif_dir());
     let _ = std::fs::create_dir_all(&dir);
     let base = format!("{}/c18-{}-{}", dir, std::process::id(), n);
     let srcp = format!("{}.tx3", base);
